@@ -1220,6 +1220,9 @@ func (t *Translator) implicitFrameCheck(st *State, kind string, pos string) {
 		if cur == old {
 			continue
 		}
+		if _, explicit := preds[k]; !explicit && t.spec.ModAll {
+			continue
+		}
 		f := frameFormula(cur, old, t.entry.heap.next, preds[k], t.vc.fresh())
 		t.oblige(st, kind+".frame", sanitizeLabel(k), t.frameTags(), f, pos, "modifies clause respected for "+k)
 	}
@@ -1266,6 +1269,9 @@ func (t *Translator) implicitFrameAssume(st *State) {
 		cur := st.heap.vers[k]
 		old := t.arrTerm(a, t.entry.heap)
 		if cur == old {
+			continue
+		}
+		if _, explicit := preds[k]; !explicit && t.spec.ModAll {
 			continue
 		}
 		t.assume(st, frameFormula(cur, old, t.entry.heap.next, preds[k], t.vc.fresh()))
